@@ -57,6 +57,19 @@ claim('C23',
       'below the cell boundary; crystals/operations enumerated; quick tier samples operation pairs for composition.',
       'DESIGN.md 3/C23, 2.4')
 
+claim('C02',
+      'Bounded symbolic verification with a certificate: the real Interstitial.diffusivity (with siteprob/ratelist/symmratelist and '
+      'its solve/pinv bias solver) runs on z3 terms for ALL site and transition-state energies and prefactors; the code\'s own '
+      'bias solution is lifted to site space and must satisfy the exact master-equation balance at every site (rates rebuilt '
+      'independently by the harness), and the returned tensor must equal 1/2 sum rho W dx dx + sum rho g(x)b. Together these '
+      'characterise the long-time diffusivity of the periodic jump process, so an unsat verdict is exactness for every input on '
+      'the listed crystals (QF_NRA, exact algebra).',
+      'Only exact verification crystals (all structure constants dyadic rationals, checked at run time): X1s, X1, X4r (solve branch), '
+      'X2 (pinv branch) [+X2b, X3 thorough]; hexagonal/cubic crystals with irrational normalisations are outside. Floats as reals; '
+      'exp/log via monomial algebra; sqrt/solve/pinv as contracts (fresh unknowns + defining equations). The sentence about the '
+      'Green-function calculator reporting the same D is NOT covered (Taylor inversion + eigh).',
+      'DESIGN.md 3/C02, 2.1')
+
 na('C01', 'exact oracle is an infinite-state pair Markov chain reached through Brillouin-zone quadrature, LAPACK and hyp1f1/expi; '
           'agreement only to integration accuracy: no algebraic statement a solver can decide (DESIGN 5)')
 na('C06', 'identities hold only for the true lattice Green function of the omega0 network (numerical k-space integration); '
